@@ -303,6 +303,13 @@ static void body_codemem (int id)
   if (!ORC_COMPILE_RESULT_IS_SUCCESSFUL (orc_program_compile (p))) ok = 0;
   c = orc_program_take_code (p);
   orc_program_free (p);
+  /* a request no region can hold fails gracefully (and must give every lock back: the other threads go on) */
+  if (id == 0) {
+    OrcCode *big = orc_code_new ();
+    orc_code_allocate_codemem (big, 100000);
+    if (big->chunk) ok = 0;
+    orc_code_free (big);
+  }
   raw = orc_code_new ();
   orc_code_allocate_codemem (raw, rawsize[id % 4]);
   if (!raw->chunk) ok = 0;
